@@ -164,9 +164,13 @@ def expr_text(n, ren=None, hook=None):
         b = n.child('base')
         if not n.n:
             return T(b)  # member of an anonymous struct/union: transparent
+        arrow = n.arrow
+        while b is not None and b.k == 'MemberExpr' and not b.n:
+            arrow = b.arrow
+            b = b.child('base')
         if b is not None and b.k == 'CXXThisExpr':
             return 'this->' + n.n
-        return T(b) + ('->' if n.arrow else '.') + n.n
+        return T(b) + ('->' if arrow else '.') + n.n
     if k == 'CXXThisExpr':
         return 'this'
     if k == 'IntegerLiteral':
